@@ -279,7 +279,7 @@ func DeepCase(name string) int {
 		go func() {
 			<-sio2.InputEOF
 			// the crew works the lines off before it stops
-			for i := 0; i < 600 && !strings.Contains(buf.String(), `"pong":"p1"`); i++ {
+			for i := 0; i < 6000 && !strings.Contains(buf.String(), `"pong":"p1"`); i++ {
 				time.Sleep(10 * time.Millisecond)
 			}
 			time.Sleep(100 * time.Millisecond)
